@@ -2,9 +2,14 @@
 from . import common, family as F
 from .common import cN, cbool, clist
 
-THEOREMS = []   # filled in once Props.v exists (see bottom)
+THEOREMS = [
+    "marshal_conforms", "doc_wrapped_conforms", "doc_bare_conforms", "rpc_conforms",
+    "children_in_schema_order", "object_node_shape", "nodes_named_and_qualified_by_declaration",
+    "list_side_condition_necessary", "theorem_instance_holds",
+    "wildcard_shortcut_refuted", "undeclared_key_refuted",
+]
 
-PRE = "From SV Require Import Lib.Base Fam.Schema C01.Marshal C01.Guard C01.Styles."
+PRE = "From SV Require Import Lib.Base Fam.Schema C01.Marshal C01.Guard C01.MarshalProofs C01.Styles."
 
 
 def envelope_body(data):
@@ -206,7 +211,9 @@ def run(ck):
                 "operation": cases[i][1][1], "arguments": repr(cases[i][1][2]), "envelope": cases[i][1][4],
                 "case": cases[i][0], "wsdl": cases[i][1][0].decode("utf-8")}})
 
-    judge("wrapped", W, "wcase", "wrapped_agrees", "wrapped_spec_ok", "wrapped_guard", "wrapped_theorem_instance")
+    judge("wrapped", W, "wcase", "wrapped_agrees", "wrapped_spec_ok",
+          "(fun c => wrapped_guard c && args_lists_ok (w_schema c) (w_wrapper c) (w_args c))",
+          "wrapped_theorem_instance")
     judge("bare", B, "bcase", "bare_agrees", "bare_spec_ok", "bare_guard")
     judge("rpc", R, "rcase", "rpc_agrees", "rpc_spec_ok", "rpc_guard")
 
